@@ -2,7 +2,8 @@
    [wf_packet] is the property's notion of a well-formed Packet value (Proofs/C01_Roundtrip.v):
    version 0-3, payload type 0-127, at most 15 32-bit CSRCs, padding flag set exactly when the
    padding size is 1-255, and the extension is absent (profile 0, no elements) | one-byte
-   (ids 1-14, values 1-16 bytes) | two-byte (ids 1-255, values 0-255 bytes) | another profile with
+   (ids 1-14, values 1-16 bytes; also id 0 with a 2-16 byte value, which the decoder can produce and
+   the encoder writes back unchanged) | two-byte (ids 1-255, values 0-255 bytes) | another profile with
    one id-0 value of whole 32-bit words; the block fits its 16-bit word count. *)
 From Coq Require Import ZArith List Lia.
 From RTP Require Import Base.Res Base.ListX Model.RtpPacket Proofs.C01_Roundtrip.
